@@ -33,7 +33,7 @@ RULE = ('generated workbooks: 1..6 (thorough ..12) worksheets in random order, o
 ASSUMPTIONS = ['openpyxl writes what the generator planted (floats with 16 significant digits: the stored number is the expectation); its regular loader is the independent reading of stored value/type',
                'time / timedelta cells are outside the type list of the statement: recorded, not judged',
                'size of an empty worksheet: {0,0} and openpyxl\'s {1,1} both accepted']
-FLOORS = {'quick': {'evaluations': 4000, 'nontrivial': 2000, 'counters': {'grid_cells_checked': 5000, 'excel_parse_hooked': 100, 'exotic_books': 6}},
+FLOORS = {'quick': {'evaluations': 4000, 'nontrivial': 2000, 'counters': {'grid_cells_checked': 5000, 'excel_parse_hooked': 100, 'exotic_books': 6, 'cursor_cell_queries': 500}},
           'thorough': {'evaluations': 80000, 'nontrivial': 40000, 'counters': {'grid_cells_checked': 100000, 'excel_parse_hooked': 2000}}}
 
 TITLES = ['S1', 'Data_2', 'my sheet', 'Лист1', '2024', 'a.b', 'Main', 'T-1', 'x y z', 'Q', 'R2D2', "it's", 'A', 'B', 'AB', 'Sheet10']
@@ -378,6 +378,25 @@ def check_book(ctx, spec, titles, plant, probes, name, far=False):
             r.nt((name, si, rr, cc))
         if pos_in_row[(si, rr)].index(cc) + 1 != cc:
             r.count('cells_whose_column_differs_from_position_in_row')
+    # a CURSOR: one Cell object of the caller, addressed by numbers, moved from constant to constant (also across sheets) between queries,
+    # and the Cell objects a whole-sheet query handed out, moved to a neighbour: every query is answered for where the cell stands NOW
+    if book.cls is not None and plant:
+        from excel2pycl import Cell as _Cell
+        exc_ = pipeline.Executor().set_executed_class(class_object=book.cls)
+        walk = [k_ for k_ in sorted(plant) if plant[k_][0] != 'time'][:40]
+        ctx.rng.shuffle(walk)
+        cursor = None
+        for (si, rr, cc) in walk[:16]:
+            if cursor is None:
+                cursor = _Cell(si, cc - 1, rr - 1)
+            else:
+                cursor.title, cursor.column, cursor.row = si, cc - 1, rr - 1
+            o = pipeline.guarded(lambda: exc_.get_cell(cursor).value, 'evaluate')
+            r.ev()
+            r.count('cursor_cell_queries')
+            if not o.ok or not same_const(o.value, plant[(si, rr, cc)][1]):
+                report(r, ID, None, dict(case0, sheet=si, cell=wbspec.a1(rr, cc), what='one Cell object moved to this address by its integer coordinates'), o.brief(),
+                       {'value': wbspec.enc(plant[(si, rr, cc)][1])}, monitor='moved-cell-object')
     # blanks inside / outside the used range
     if book.cls is not None:
         for si in range(len(titles)):
